@@ -514,3 +514,32 @@ def edit_catalogue(prog, rng):
                 out.append(("unread-var", {"mod": mod, "name": vn}, p2))
                 break
     return out
+
+
+def move_module(prog, old, new):
+    """The same code placed in another module of the accepted package (C02: copied to another accepted module)."""
+    p2 = copy.deepcopy(prog)
+    p2["modules"][new] = p2["modules"].pop(old)
+    for m in p2["modules"].values():
+        for f in m["funcs"]:
+            for st in f["stmts"]:
+                if "callee" in st and st["callee"][0] == old:
+                    st["callee"] = (new, st["callee"][1])
+    if p2["root"][0] == old:
+        p2["root"] = (new, p2["root"][1])
+    return p2
+
+
+def kept_only_functions(prog):
+    """Functions whose body runs only through a keep or as a data function (never through a plain call)."""
+    kept, plain = set(), set()
+    for (m, n) in reachable(prog, *prog["root"]):
+        f = find_func(prog, m, n)
+        if f.get("annot"):
+            kept.add((m, n))
+        for st in f["stmts"]:
+            if st["k"] == "keep":
+                kept.add(tuple(st["callee"]))
+            elif st["k"] in ("call", "ref") and not find_func(prog, *st["callee"]).get("annot"):
+                plain.add(tuple(st["callee"]))
+    return kept - plain
